@@ -3,6 +3,7 @@
 package vsimharness
 
 import (
+	"strconv"
 	"bufio"
 	"crypto/sha256"
 	"encoding/hex"
@@ -272,7 +273,7 @@ func runBatch(t *testing.T, job Job) {
 			}
 		}
 		if res.Sample != nil && len(agg.Samples) < 3 {
-			agg.Samples = append(agg.Samples, map[string]any{"run_seed": seed, "variant": w.Variant, "steps": res.Steps, "case": res.Sample})
+			agg.Samples = append(agg.Samples, map[string]any{"run_seed": strconv.FormatUint(seed, 10), "variant": w.Variant, "steps": res.Steps, "case": res.Sample})
 		}
 		if res.Undecided != "" {
 			agg.Undecided[res.Undecided]++
